@@ -41,7 +41,7 @@ Special == SpecialCore \cup
 Full == {NoneE} \cup PyScalars \cup NpScalars \cup Lists \cup Tuples \cup Arrays \cup Dicts \cup Special
 
 \* representatives of every mechanism for the longer collections
-Mid == {NoneE, Sc("int", "b"), Sc("float", "a"), Sc("float", "nan"), Sc("float", "pinf"), Sc("str", "a"),
+Mid == {NoneE, Sc("int", "b"), Sc("float", "a"), Sc("float", "nan"), Sc("float", "pinf"), Sc("bool", "a"), Sc("str", "a"),
         Sc("u8", "lo2"),
         Sq("list", "int", <<2>>, <<"hi2", "b">>), Sq("list", "int", <<1>>, <<"b">>), Sq("list", "float", <<0>>, <<>>),
         Sq("list", "float", <<2>>, <<"a", "none">>),
